@@ -265,6 +265,8 @@ fn recurse_multi(
                 expected
             }
             Node::Player(player) => {
+                #[cfg(feature = "verif-hooks")]
+                crate::verif::yield_point();
                 // get infoset
                 let info = &player.num.ind(&player_infosets)[player.infoset];
                 info.update_cum_strat(*player.num.ind(&p_player));
@@ -303,7 +305,11 @@ fn solve_generic_single(
     params: &RegretParams,
 ) -> SolveInfo {
     let mut regs = [f64::INFINITY; 2];
+    #[cfg(feature = "verif-hooks")]
+    let verif_session = crate::verif::current();
     for it in 1..=iter {
+        #[cfg(feature = "verif-hooks")]
+        crate::verif::begin_pass(&verif_session);
         let [player_one, player_two] = &player_infosets;
         recurse_single(
             start,
@@ -382,11 +388,15 @@ fn solve_generic_multi(
     let pool = ThreadPoolBuilder::new()
         .num_threads(num_threads.get())
         .build()?;
+    #[cfg(feature = "verif-hooks")]
+    let verif_session = crate::verif::current();
     pool.scope(|_| {
         let mut queue = Vec::with_capacity(target.get());
         let mut work = Vec::with_capacity(target.get());
         let mut payoffs = HashMap::with_capacity(target.get());
         for it in 1..=iter {
+            #[cfg(feature = "verif-hooks")]
+            crate::verif::begin_pass(&verif_session);
             // compute threadding threshold
             let [player_one, player_two] = &mut player_infosets;
             thread_threshold(
@@ -400,6 +410,8 @@ fn solve_generic_multi(
             // send threshold to threads for computation
             let [player_one, player_two] = &player_infosets;
             payoffs.par_extend(queue.par_drain(..).map(|(node, p_chance, p_player)| {
+                #[cfg(feature = "verif-hooks")]
+                crate::verif::task_start(&verif_session);
                 let payoff = recurse_multi(
                     node,
                     &chance_infosets,
